@@ -1,6 +1,7 @@
 //! C02 — no output line is wider than the requested width.
 use super::common::*;
 use crate::cfg::{render, render_lines, oline_text, CfgSpec, Deco, Rend};
+use super::fuzzsub::FuzzSub;
 use crate::engine::{PropSub, Property, Stats};
 use crate::gen::{census, G};
 use crate::odom;
@@ -88,6 +89,8 @@ pub fn property() -> Property {
         subs: vec![
             PropSub::new("grammar", 48_000, 480_000, move || doc_case(g.clone(), 1..=120, cfg_bounded(), false), check_width).with_validity(|c| c.doc.valid()).boxed(),
             PropSub::new("mutated", 24_000, 240_000, move || doc_case(g2.clone(), 1..=120, cfg_bounded(), true), check_width).with_validity(|c| c.doc.valid()).boxed(),
+            FuzzSub { name: "fuzz_render", target: "fuzz_render", props: &["C02"], seconds: 120 }.boxed(),
+            FuzzSub { name: "fuzz_struct", target: "fuzz_struct", props: &["C02"], seconds: 120 }.boxed(),
         ],
     }
 }
